@@ -839,6 +839,15 @@ def cases(tier, seed):
     for (L, Rr, m_) in big_glrm:
         add('bipartite', ['glrm', L, Rr, m_], mode='plain', max_dev=0, default='mix', default_seed=seed,
             horizon=5000000, max_execs=1)
+    # dense requests of medium size: more than half of the possible degree
+    # (samplers switch strategy or restart hundreds of times there)
+    for (N_, d_) in ((32, 17), (33, 18), (48, 25), (34, 31)):
+        add('simple', ['gnd', N_, d_], mode='plain', max_dev=0, default='mix', default_seed=seed,
+            horizon=5000000, max_execs=1)
+    for (L, Rr, d_) in ((18, 18, 17), (16, 16, 15), (30, 15, 14), (12, 24, 22)):
+        for ds in (seed, seed + 1):
+            add('bipartite', ['regular', L, Rr, d_], mode='plain', max_dev=0, default='mix', default_seed=ds,
+                horizon=5000000, max_execs=1)
     add('bipartite', ['glrm', 2, 2])
     add('bipartite', ['glrd', 2, 2, 1, 1])
     add('bipartite', ['regular', 2])
